@@ -704,3 +704,19 @@ class AnnealResults(list):
 
         """
         return AnnealResults(super().__mul__(other))
+
+    def __rmul__(self, other):
+        """__rmul__.
+
+        Override ``list.__rmul__`` to return a ``AnnealResults`` object.
+
+        Parameters
+        ----------
+        other : int.
+
+        Returns
+        -------
+        res : qubovert.sim.AnnealResults object.
+
+        """
+        return AnnealResults(super().__rmul__(other))
